@@ -289,3 +289,106 @@ class WebRig:
             writer.close()
             for _ in range(3):
                 await asyncio.sleep(0)
+
+
+class KeepAlive:
+    """One persistent HTTP/1.1 connection to the rig (own client code): sequential or pipelined requests on the SAME socket."""
+
+    def __init__(self, rig: WebRig):
+        self.rig = rig
+        self.reader = None
+        self.writer = None
+
+    async def open(self):
+        self.reader, self.writer = await asyncio.open_connection("127.0.0.1", self.rig.port)
+
+    def close(self):
+        if self.writer is not None:
+            self.writer.close()
+            self.writer = None
+
+    def encode(self, method, target, headers=(), body=None, extra=()) -> bytes:
+        buf = _io.BytesIO()
+        buf.write(f"{method} {target} HTTP/1.1\r\nHost: 127.0.0.1:{self.rig.port}\r\n".encode("latin-1"))
+        for k, v in list(headers) + list(extra):
+            buf.write(f"{k}: {v}\r\n".encode("latin-1"))
+        if body is not None:
+            buf.write(f"Content-Length: {len(body)}\r\n".encode())
+        buf.write(b"\r\n")
+        if body:
+            buf.write(body)
+        return buf.getvalue()
+
+    async def send(self, raw: bytes):
+        self.writer.write(raw)
+        await self.writer.drain()
+
+    async def read_response(self, method: str, timeout=8.0) -> Resp:
+        """Read exactly one response (framing by status / Content-Length / chunked).  Raises EOFError if the server closed."""
+        try:
+            head = await asyncio.wait_for(self.reader.readuntil(b"\r\n\r\n"), timeout)
+        except asyncio.IncompleteReadError as e:
+            raise EOFError("connection closed by the server") from e
+        resp = parse_response(head)
+        raw = head
+        body = b""
+        cl = resp.header_all("content-length")
+        chunked = any("chunked" in v.lower() for v in resp.header_all("transfer-encoding"))
+        if method == "HEAD" or resp.status in (204, 304) or resp.status < 200:
+            pass
+        elif chunked:
+            while True:
+                line = await asyncio.wait_for(self.reader.readuntil(b"\r\n"), timeout)
+                raw += line
+                n = int(line.split(b";")[0].strip() or b"0", 16)
+                chunk = await asyncio.wait_for(self.reader.readexactly(n + 2), timeout)
+                raw += chunk
+                if n == 0:
+                    break
+                body += chunk[:-2]
+        elif cl:
+            body = await asyncio.wait_for(self.reader.readexactly(int(cl[0])), timeout)
+            raw += body
+        else:
+            body = await asyncio.wait_for(self.reader.read(-1), timeout)
+            raw += body
+        resp.body = body
+        resp.raw = raw
+        return resp
+
+    async def request(self, method, target, headers=(), body=None) -> Resp:
+        await self.send(self.encode(method, target, headers, body))
+        return await self.read_response(method)
+
+
+async def ui_connect(rig: WebRig, headers, timeout=8.0):
+    """Open an /updates websocket like the web UI does and keep it open. -> (reader, writer) or raises ConnectionError."""
+    reader, writer = await asyncio.open_connection("127.0.0.1", rig.port)
+    buf = f"GET /updates HTTP/1.1\r\nHost: 127.0.0.1:{rig.port}\r\nUpgrade: websocket\r\nConnection: Upgrade\r\nSec-WebSocket-Key: dGhlIHNhbXBsZSBub25jZQ==\r\nSec-WebSocket-Version: 13\r\n"
+    for k, v in headers:
+        buf += f"{k}: {v}\r\n"
+    writer.write((buf + "\r\n").encode("latin-1"))
+    await writer.drain()
+    head = await asyncio.wait_for(reader.readuntil(b"\r\n\r\n"), timeout)
+    if not head.startswith(b"HTTP/1.1 101"):
+        writer.close()
+        raise ConnectionError(f"websocket upgrade refused: {head[:40]!r}")
+    return reader, writer
+
+
+async def ui_disconnect(conn):
+    """Close the UI websocket and make sure the server forgot it."""
+    from mitmproxy.tools.web import app as webapp
+
+    if conn is not None:
+        conn[1].close()
+    for _ in range(20):
+        if not webapp.ClientConnection.connections:
+            return
+        await asyncio.sleep(0)
+    for c in list(webapp.ClientConnection.connections):
+        try:
+            c.on_close()
+        except Exception:
+            pass
+    webapp.ClientConnection.connections.clear()
